@@ -52,7 +52,7 @@ EXHAUSTIVE_NOTE = {
     "thorough": "all 12171 parameter-list shapes with <=8 parameters; all annotation masks for <=7 parameters (1,039,378 annotated cases), 8 seeded masks "
     "per shape for 8 parameters; 5 def renderings each, 3 lambda renderings per un-annotated shape; groups and larger signatures are sampled (not exhaustive)",
 }
-BUDGET_S = {"quick": 100.0, "thorough": 1500.0}
+BUDGET_S = {"quick": 85.0, "thorough": 1500.0}
 
 DEF_RENDERINGS = ("def", "async-def", "method", "staticmethod", "classmethod")
 LAMBDA_RENDERINGS = ("lambda-attr", "lambda-class-attr", "lambda-default")
@@ -404,7 +404,15 @@ def run_shard(ctx) -> None:
     full_budget = ctx.budget_s
     ctx.budget_s = 0.45 * full_budget
     try:
-        ctx.run_hypothesis(_hyp_strategy(ctx), check_case, ctx.scale(2500, 40000), describe=describe, salt="groups")
+        # in chunks: a run that is out of budget stops drawing instead of generating (and skipping) the remaining examples;
+        # the first chunk uses the salt of strategy() so that the shrinker replays it exactly
+        total, done, k = ctx.scale(2500, 40000), 0, 0
+        strat = _hyp_strategy(ctx)
+        while done < total and not ctx.out_of_budget():
+            n = min(500, total - done)
+            ctx.run_hypothesis(strat, check_case, n, describe=describe, salt="groups" + (str(k) if k else ""))
+            done += n
+            k += 1
     finally:
         ctx.budget_s = full_budget
     max_params = ctx.scale(5, 8)
